@@ -155,6 +155,12 @@ def run(rep, tier, seed, replay=None):
             if viol and any(v in unlisted for v in viol):
                 rep.violation("counterexample", dict(harness="hsim_chan", program=p, expected=[v for v in unlisted if v in viol][0],
                                                      model_verdict=rej, trace=[l for l in res.trace if not l.startswith("h ")][-30:]))
+            elif res.trace[res.reject[0]].split()[0] in ("ret", "q", "call"):
+                # every event of the specification automaton is an API call/return or a quiescent point of the real run:
+                # the rejected history is itself the failing input
+                i = res.reject[0]
+                rep.violation("counterexample", dict(harness="hsim_chan", program=p, expected="Lean automaton rejected `%s`: %s" % (res.trace[i], rej),
+                                                     trace=[l for l in res.trace[:i + 1] if not l.startswith("h ")][-30:]))
             else:
                 i = res.reject[0]
                 rep.violation("unverified", dict(broken="correspondence hsim_chan vs Lean automaton `chan`: history rejected", program=p,
